@@ -198,10 +198,15 @@ def gen_mesen(rng):
     return "\n".join(lines) + "\n", want
 
 
+KNOWN = {}
+
+
 def run(chk):
     rng = chk.rng
     thorough = chk.tier == "thorough"
     chk.rule = RULE
+    KNOWN.clear()
+    KNOWN.update({k["id"]: k for k in fw.known_findings("C12") if k["status"] == "open"})
     n = 2500 if thorough else 300
     jobs = []       # (program struct, files dict, linemap, asm fields)
     for i in range(n):
@@ -217,6 +222,12 @@ def run(chk):
                 if rng.random() < 0.3 and not tl[ln - 1].rstrip().endswith("{"):
                     tl[ln - 1] += rng.choice([" ; é", " ; ünï ✓", "\t;* 𝄞 *;", " ; →"])
             text = "\n".join(tl)
+        # data elements whose text is known to the generator, in forms whose span the parser assembles from parts: short slices
+        # (finding F67, repaired: `7`8` was listed as "`8"), slices, concatenations, and operands in parentheses (finding F80, open)
+        tail_elems = []
+        if rng.random() < 0.5:
+            tail_elems = rng.sample(["7`8", "0x3c5[11:4]", "3`4 @ 1`4", "le(0x12)", "1 + 2`8", "(1 + 2)", "2 * (1 + 2)", "(1 + 2) * 2"], 3)
+            text += "#d8 " + rng.choice([", ", " , ", ","]).join(tail_elems) + "\n"
         extra = {}
         if rng.random() < 0.5:
             # a symbol whose value is not an integer (it is not listed), with a nested label (which is)
@@ -232,7 +243,7 @@ def run(chk):
             lm = [((ln, "main.asm") if ln <= cut else (ln - cut, "part.asm"), ii) for ln, ii in lm]
         else:
             lm = [((ln, "main.asm"), ii) for ln, ii in lm]
-        jobs.append((p, dict(files), dict(lm), fw.asm_op(files), noemit, extra))
+        jobs.append((p, dict(files), dict(lm), fw.asm_op(files), noemit, extra, tail_elems))
     fmts = []
     for j, job in enumerate(jobs):
         b, g = rng.choice(BASES), rng.randrange(1, 10)
@@ -249,7 +260,7 @@ def run(chk):
     mops, mfor = [], []
     for (j, fs, kind), a in zip(meta, impl):
         chk.evaluations += 1
-        p, files, lm, _, noemit, extra = jobs[j]
+        p, files, lm, _, noemit, extra, tail_elems = jobs[j]
         inp = {"format": fs, "files": files}
         if "text" not in a:
             chk.count("not_assembled")
@@ -268,23 +279,47 @@ def run(chk):
             if err is None and kind[0] == "annotated":
                 # the row's data are the encoding of the item on the span's source line (language definition)
                 e = gen_isa.expected(p)
+                tail_seen = []
                 for s in spans:
                     if s["offset"] is None or s["size"] == 0:
                         continue
                     src = files[s["src"]["file"]].encode()
                     ln = src[:s["src"]["start"]].count(b"\n") + 1
                     ii = lm.get((ln, s["src"]["file"]))
-                    if ii is None and extra and src[s["src"]["start"]:s["src"]["end"]] == b"7":
+                    exc = src[s["src"]["start"]:s["src"]["end"]]
+                    line = src.split(b"\n")[ln - 1]
+                    if ii is None and extra and exc == b"7" and line.strip() == b"#d8 7":
+                        continue
+                    if ii is None and tail_elems and line.startswith(b"#d8 "):
+                        tail_seen.append(exc.decode())
                         continue
                     if ii is None:
                         err = "span on line %d of %s which holds no item" % (ln, s["src"]["file"]); break
                     it = p.items[ii]
+                    # the row's text is the item's own text, by the generator's knowledge of the line (not by the recorded span):
+                    # an instruction is its line without indentation and trailing comment, a data element one of the pieces between commas
+                    col = s["src"]["start"] - (len(b"\n".join(src.split(b"\n")[:ln - 1])) + (1 if ln > 1 else 0))
+                    before, after = line[:col], line[col + len(exc):]
+                    if it[0] == "instr" and (before.strip() != b"" or not (after.strip() == b"" or after.strip().startswith(b";"))):
+                        err = "line %d: the row's text %r is not the instruction on the line %r" % (ln, exc, line); break
+                    if it[0] == "data":
+                        body_ = line.split(b";")[0].strip()
+                        pieces = [x.strip() for x in body_.split(b" ", 1)[1].split(b",")] if b" " in body_ else []
+                        if exc not in pieces:
+                            err = "line %d: the row's text %r is none of the data elements %r" % (ln, exc, pieces); break
                     if it[0] == "instr":
                         enc = gen_isa.encode(p.rules[it[1]], [v for _, v in it[2]], p.addr)
                         if bits[s["offset"]:s["offset"] + s["size"]] != enc:
                             err = "line %d: bits at the row's position are not the instruction's encoding" % ln; break
                     elif it[0] != "data":
                         err = "emitted item attributed to a line holding %s" % it[0]; break
+                if err is None and tail_elems and tail_seen != tail_elems:
+                    wrong = [(w, g) for w, g in zip(tail_elems, tail_seen) if w != g]
+                    if len(tail_seen) == len(tail_elems) and all(w.startswith("(") or w.endswith(")") for w, g in wrong) and "F80" in KNOWN:
+                        chk.known("F80", KNOWN["F80"]["observed"])
+                        chk.count("paren_clipped_F80")
+                    else:
+                        err = "the rows of the data elements %r carry the texts %r" % (tail_elems, tail_seen)
             mops.append("lst %s %d %d %s %s %s" % (kind[0], kind[1], kind[2], bits or "-",
                         ",".join("%s:%d:%s:%d:%d:%d" % ("n" if s["offset"] is None else s["offset"], s["size"], s["addr"]["v"],
                                                        list(files).index(s["src"]["file"]), s["src"]["start"], s["src"]["end"]) for s in spans) or "-",
